@@ -27,6 +27,7 @@ type sched struct {
 	maxSwitches int
 	owner       map[*value]int // mutex -> owning thread
 	readers     map[*value]int // RWMutex -> number of read locks held
+	writers     map[*value]int // RWMutex -> number of threads blocked in Lock (a pending writer holds back new readers)
 }
 
 type abortThread struct{}
@@ -45,14 +46,23 @@ func (s *sched) yield() {
 func (s *sched) lock(mu *value) {
 	s.yield()
 	t := s.current()
+	pending := false
 	for {
 		if _, held := s.owner[mu]; !held && s.readers[mu] == 0 {
 			s.owner[mu] = t.id
 			t.waitsFor = nil
+			if pending {
+				s.writers[mu]--
+			}
 			return
 		}
-		if s.owner[mu] == t.id {
+		if o, held := s.owner[mu]; held && o == t.id {
 			panic("fatal error: all goroutines are asleep - deadlock! (re-entrant Lock)")
+		}
+		if !pending {
+			// sync.RWMutex: a blocked Lock excludes new readers until it has been served
+			pending = true
+			s.writers[mu]++
 		}
 		t.waitsFor = mu
 		s.yield()
@@ -64,7 +74,7 @@ func (s *sched) rlock(mu *value) {
 	s.yield()
 	t := s.current()
 	for {
-		if _, held := s.owner[mu]; !held {
+		if _, held := s.owner[mu]; !held && s.writers[mu] == 0 {
 			s.readers[mu]++
 			t.waitsFor = nil
 			return
@@ -97,6 +107,9 @@ func (s *sched) runnable() []int {
 			if s.readers[t.waitsFor] > 0 && !t.wantsRead {
 				continue
 			}
+			if t.wantsRead && s.writers[t.waitsFor] > 0 {
+				continue
+			}
 		}
 		r = append(r, t.id)
 	}
@@ -110,7 +123,7 @@ func ndPar(fr *frame, args []value) value {
 	if v, ok := i.params["preemptions"]; ok {
 		maxSw = v
 	}
-	s := &sched{i: i, back: make(chan int), maxSwitches: maxSw, owner: map[*value]int{}, readers: map[*value]int{}}
+	s := &sched{i: i, back: make(chan int), maxSwitches: maxSw, owner: map[*value]int{}, readers: map[*value]int{}, writers: map[*value]int{}}
 	i.sched = s
 	defer func() { i.sched = nil }()
 	for k := 0; k < 2; k++ {
